@@ -45,7 +45,7 @@ theorem slice_is_python (ty : Bytes) (xs : List Val) (from_ to_ : Int) (missing 
       .list ty (pySlice xs (some from_) (if missing then none else some to_)) := by
   obtain ⟨h1, h2⟩ := slice_bounds_python xs.length from_ to_ missing (by omega)
   obtain ⟨r0, r1, _⟩ := slice_bounds_in_range xs.length from_ to_ missing (by omega)
-  simp only [vSlice, Val.resolved, pySlice, Option.getD_some, sliceBounds]
+  simp only [vSlice, Val.reflected, Val.resolved, pySlice, Option.getD_some, sliceBounds]
   rw [h1] at r0 r1 ⊢
   rw [h2] at r1 ⊢
   congr 2
